@@ -1,9 +1,9 @@
 (** C06 — bit-string read/write primitives behave like an ideal bit list.
     Statements only; every proof is [exact <lemma>] into Proofs/. *)
 From Coq Require Import List NArith ZArith Arith Lia Bool.
-From Tongo Require Import Lib.Bits Lib.Res Model.BitString Model.BitStringD Model.CellRefs
+From Tongo Require Import Lib.Bits Lib.Res Model.BitString Model.BitStringD Model.CellRefs Model.BitStringOwn
   Proofs.BitStringW Proofs.BitStringR Proofs.BitStringR2 Proofs.BitStringSeq
-  Proofs.MinBits Proofs.Fift Proofs.BitStringD Proofs.C06History Proofs.CellRefsP.
+  Proofs.MinBits Proofs.Fift Proofs.BitStringD Proofs.C06History Proofs.CellRefsP Proofs.BitStringOwnP.
 Import ListNotations.
 
 (** Any sequence of in-domain writes that fits, followed by the matching reads,
@@ -415,6 +415,58 @@ Example C06_full_cell_premises :
   let h := [mkcc (new_bs 1023) [1; 2; 3; 4]%nat 0; new_cell; new_cell; new_cell; new_cell] in
   wf h 0 /\ Inv (cbits (hget h 0)) /\ length (crefs (hget h 0)) = 4%nat.
 Proof. exact full_cell_premises. Qed.
+
+(** ** Ownership: what Copy returns is the caller's (Model/BitStringOwn.v: bit
+    strings as handles into a store of buffers, so that sharing is expressible) *)
+
+(** any value-level operation done through one handle leaves the bit string
+    behind every other buffer as it was *)
+Theorem C06_write_through_handle_frame :
+  forall A (f : bs -> bs * A) st b st' b' r other,
+  h_apply f st b = (st', b', r) -> bid other <> bid b ->
+  view st' other = view st other.
+Proof. exact @h_apply_frame. Qed.
+
+(** Copy yields a NEW buffer with the same bits and cursor 0 ... *)
+Theorem C06_copy_fresh_buffer :
+  forall st b, (bid b < length st)%nat ->
+  let '(st', c) := h_copy st b in
+  bid c = length st /\ bid c <> bid b /\
+  view st' c = copy_bs (view st b) /\
+  (forall o, (bid o < length st)%nat -> view st' o = view st o).
+Proof. exact h_copy_spec. Qed.
+
+(** ... hence source, copy and a sibling copy are independent, whichever is
+    written first, for every operation f (incl. an EMPTY source) *)
+Theorem C06_copy_independent :
+  forall A (f : bs -> bs * A) st b, (bid b < length st)%nat ->
+  let '(st1, c) := h_copy st b in
+  (let '(st2, _, _) := h_apply f st1 c in view st2 b = view st b) /\
+  (let '(st2, _, _) := h_apply f st1 b in view st2 c = copy_bs (view st b)) /\
+  (let '(st2, c2) := h_copy st1 b in
+   let '(st3, _, _) := h_apply f st2 c2 in view st3 c = copy_bs (view st b)).
+Proof. exact @copy_independent. Qed.
+Print Assumptions C06_copy_independent.
+
+(** a Copy that shares the buffer of a source with nothing written: the first
+    copy (0xAAAA) reads back what was written into its sibling (0x1234), and
+    the empty source's buffer holds bits *)
+Theorem C06_copy_shared_buffer_refuted :
+  let '(st0, s) := h_new 16 [] in
+  let '(st1, a) := h_copy_shared st0 s in
+  let '(st2, b) := h_copy_shared st1 s in
+  let '(st3, a', _) := h_write_bits (bits_of 16 43690) st2 a in
+  let '(st4, b', _) := h_write_bits (bits_of 16 4660) st3 b in
+  abs (view st3 a') = bits_of 16 43690 /\
+  abs (view st4 a') = bits_of 16 4660 /\
+  buf (view st4 s) <> buf (view st0 s) /\ hlen s = 0%nat /\
+  (let '(st1, a) := h_copy st0 s in
+   let '(st2, b) := h_copy st1 s in
+   let '(st3, a', _) := h_write_bits (bits_of 16 43690) st2 a in
+   let '(st4, b', _) := h_write_bits (bits_of 16 4660) st3 b in
+   abs (view st4 a') = bits_of 16 43690 /\ abs (view st4 b') = bits_of 16 4660 /\
+   buf (view st4 s) = buf (view st0 s)).
+Proof. exact h_copy_shared_refuted. Qed.
 
 (** Non-vacuity: a concrete non-trivial state and item list meet the premises. *)
 Example C06_premises_satisfiable :
